@@ -456,6 +456,105 @@ mod imp {
         }
     }
 
+
+    /// Independent reading of `ProvenEqRaw::to_string` (one of C07's observation points): the text is parsed back
+    /// line by line (`<i>: <l> = <r> by <rule>`) and compared with the proof DAG: line numbers are consecutive, every
+    /// reference points to an earlier line, the last line is the root, there is exactly one line per distinct proof
+    /// node, and (recursively, memoised) every line shows the equation and the rule of the node it stands for and its
+    /// references stand for that node's premises in order.  Rendering twice gives the same text.
+    pub fn check_printed(eg: &EGraph<Sym>, p: &ProvenEq) -> Result<u64, String> {
+        let text = catch(|| p.to_string(eg)).map_err(|s| format!("ProvenEqRaw::to_string panicked: {s}"))?;
+        let again = catch(|| p.to_string(eg)).map_err(|s| format!("ProvenEqRaw::to_string panicked: {s}"))?;
+        if text != again {
+            return Err("two renderings of one proof differ".into());
+        }
+        struct Line {
+            eq: String,
+            rule: String,
+            refs: Vec<usize>,
+        }
+        let mut lines: Vec<Line> = Vec::new();
+        for (n, raw) in text.lines().enumerate() {
+            let Some((num, rest)) = raw.split_once(": ") else { return Err(format!("line {n} has no number: {raw}")) };
+            if num.parse::<usize>().ok() != Some(n) {
+                return Err(format!("line {n} is numbered {num}"));
+            }
+            let Some((eq, by)) = rest.rsplit_once(" by ") else { return Err(format!("line {n} names no rule: {raw}")) };
+            let (rule, refs) = match by.split_once('(') {
+                Some((r, tail)) if ["symmetry", "transitivity", "congruence"].contains(&r) => {
+                    let Some(inner) = tail.strip_suffix(')') else { return Err(format!("line {n}: unbalanced rule {by}")) };
+                    let mut v = Vec::new();
+                    for x in inner.split(", ").filter(|x| !x.is_empty()) {
+                        let Ok(k) = x.parse::<usize>() else { return Err(format!("line {n}: reference {x} is no number")) };
+                        if k >= n {
+                            return Err(format!("line {n} refers to line {k}, which does not precede it"));
+                        }
+                        v.push(k);
+                    }
+                    (r.to_string(), v)
+                }
+                _ => (by.to_string(), vec![]),
+            };
+            lines.push(Line { eq: eq.to_string(), rule, refs });
+        }
+        if lines.is_empty() {
+            return Err("empty rendering".into());
+        }
+        // distinct proof nodes
+        let mut seen: BTreeSet<*const ProvenEqRaw> = BTreeSet::new();
+        let mut stack: Vec<&ProvenEq> = vec![p];
+        while let Some(x) = stack.pop() {
+            if !seen.insert((&**x) as *const ProvenEqRaw) {
+                continue;
+            }
+            match x.proof() {
+                Proof::Symmetry(SymmetryProof(q)) => stack.push(q),
+                Proof::Transitivity(TransitivityProof(a, b)) => {
+                    stack.push(a);
+                    stack.push(b);
+                }
+                Proof::Congruence(CongruenceProof(ps)) => stack.extend(ps.iter()),
+                _ => {}
+            }
+        }
+        if seen.len() != lines.len() {
+            return Err(format!("the rendering has {} lines for a proof of {} distinct steps", lines.len(), seen.len()));
+        }
+        fn stands_for(eg: &EGraph<Sym>, lines: &[Line], i: usize, p: &ProvenEq, memo: &mut HashMap<(usize, *const ProvenEqRaw), bool>) -> Result<(), String> {
+            let key = (i, (&**p) as *const ProvenEqRaw);
+            if memo.contains_key(&key) {
+                return Ok(());
+            }
+            let e = p.equ();
+            let want = format!("{} = {}", eg.get_syn_expr(&e.l), eg.get_syn_expr(&e.r));
+            if lines[i].eq != want {
+                return Err(format!("line {i} shows '{}' where the proof step concludes '{want}'", lines[i].eq));
+            }
+            let (rule, subs): (String, Vec<&ProvenEq>) = match p.proof() {
+                Proof::Reflexivity(_) => ("refl".into(), vec![]),
+                Proof::Explicit(ExplicitProof(j)) => (format!("{j:?}"), vec![]),
+                Proof::Symmetry(SymmetryProof(q)) => ("symmetry".into(), vec![q]),
+                Proof::Transitivity(TransitivityProof(a, b)) => ("transitivity".into(), vec![a, b]),
+                Proof::Congruence(CongruenceProof(ps)) => ("congruence".into(), ps.iter().collect()),
+            };
+            if lines[i].rule != rule {
+                return Err(format!("line {i} names the rule '{}' where the proof step is '{rule}'", lines[i].rule));
+            }
+            if lines[i].refs.len() != subs.len() {
+                return Err(format!("line {i} ({rule}) has {} references for {} premises", lines[i].refs.len(), subs.len()));
+            }
+            memo.insert(key, true);
+            for (k, q) in lines[i].refs.clone().into_iter().zip(subs) {
+                stands_for(eg, lines, k, q, memo)?;
+            }
+            Ok(())
+        }
+        let mut memo = HashMap::new();
+        let last = lines.len() - 1;
+        catch(|| stands_for(eg, &lines, last, p, &mut memo)).map_err(|s| format!("reading the rendering panicked: {s}"))??;
+        Ok(lines.len() as u64)
+    }
+
     use crate::props::fires::{P, PA};
 
     /// match a pattern against a term: pattern variables bind sub-terms, pattern slots bind slots
@@ -712,6 +811,14 @@ mod imp {
                             if !ok {
                                 fails.push(("wrong-conclusion".into(), format!("proof returned for {qs} concludes something else"), format!("concludes {} = {}", show(&cl), show(&cr))));
                             }
+                            match check_printed(&eg, &p) {
+                                Ok(n) => {
+                                    if n > 1 {
+                                        goals |= 1 << 10;
+                                    }
+                                }
+                                Err(m) => fails.push(("wrong-rendering".into(), format!("ProvenEqRaw::to_string of the proof of {qs}: {}", m.split(':').next().unwrap_or("")), m)),
+                            }
                         }
                     }
                 }
@@ -802,6 +909,14 @@ mod imp {
                         if !(match_equation(&cl, &cr, &tl, &tr)) {
                             fails.push(("wrong-conclusion".into(), format!("proof returned for {qs} concludes something else"), format!("concludes {} = {}", show(&cl), show(&cr))));
                         }
+                        match check_printed(&eg, &p) {
+                            Ok(n) => {
+                                if n > 1 {
+                                    goals |= 1 << 10;
+                                }
+                            }
+                            Err(m) => fails.push(("wrong-rendering".into(), format!("ProvenEqRaw::to_string of the proof of {qs}: {}", m.split(':').next().unwrap_or("")), m)),
+                        }
                     }
                 },
             }
@@ -845,10 +960,11 @@ impl Prop for ExplainProp {
             "step_congruence",
             "step_explicit",
             "leaf_justified_by_rule_name_checked",
+            "printed_proof_of_several_lines_read_back",
         ]
     }
     fn rule(&self) -> String {
-        "Every multiset of union/insert operations of the stated depth over the stated alphabets (incl. 3-cycles on a 3-slot leaf, all 23 permutations on a 4-slot leaf, redundancy, self-reference, binders), every distinct ordering (and the all-flipped orientation), is executed with union_justified and a distinct label per asserted equation, in the `explanations` build (thorough: also with the crate's internal checks). For EVERY pair of tracked (sub)terms and relative naming that the ground congruence closure says is equal, explain_equivalence must return; an independent checker that works on terms (get_syn_expr of both sides of every ProvenEqRaw::equ) walks the proof DAG once: reflexivity (alpha-equal sides), symmetry (flip up to renaming), transitivity (renamings injective on each side of each premise that agree on the middle term), congruence (same operator and slot arguments, binders renamed alike, children match premises position-wise), explicit leaves (instance of the user's equation with that label), and the root concludes the queried equation up to injective renaming. Non-trivial = number of proof steps checked.".into()
+        "Every multiset of union/insert operations of the stated depth over the stated alphabets (incl. 3-cycles on a 3-slot leaf, all 23 permutations on a 4-slot leaf, redundancy, self-reference, binders), every distinct ordering (and the all-flipped orientation), is executed with union_justified and a distinct label per asserted equation, in the `explanations` build (thorough: also with the crate's internal checks). For EVERY pair of tracked (sub)terms and relative naming that the ground congruence closure says is equal, explain_equivalence must return; an independent checker that works on terms (get_syn_expr of both sides of every ProvenEqRaw::equ) walks the proof DAG once: reflexivity (alpha-equal sides), symmetry (flip up to renaming), transitivity (renamings injective on each side of each premise that agree on the middle term), congruence (same operator and slot arguments, binders renamed alike, children match premises position-wise), explicit leaves (instance of the user's equation with that label), and the root concludes the queried equation up to injective renaming.  ProvenEqRaw::to_string of every valid proof is parsed back and compared with the proof DAG (one line per distinct step, consecutive numbers, references to earlier lines only, equation, rule and premises of every line as in the DAG, root last, rendering twice gives the same text). Non-trivial = number of proof steps checked.".into()
     }
     fn assumptions(&self) -> Vec<String> {
         vec!["leaves are justified unions and single-rule applications (a rule leaf is checked to be an instance of the named rule)".into(), "histories that panic while being built are reported as no-answer failures, except in the extra checks_expl configuration where they are only counted (DESIGN §7, D9)".into()]
